@@ -725,19 +725,22 @@ def parse_trace(lines):
         cur.append(l)
     if cur:
         chunks.append("\n".join(cur))
-    out = {"sim": None, "lines": [], "initial_state": None, "actions": [], "summary": None, "programs": []}
+    out = {"sim": None, "lines": [], "initial_state": None, "actions": [], "summary": None, "programs": [], "seq": []}
     pending_line = None
     for ch in chunks:
         if ch.startswith("(result"):
             out["summary"] = Summary(ch)
             continue
         head = ch.split(None, 1)[0]
-        if head == "(line":
-            # `(line k "src")` followed by indented log items
+        if head in ("(line", "(client"):
+            # `(line k "src")` / `(client "call")` followed by indented log items
             first, *rest = ch.split("\n")
             f = sexpr.parse(first)
-            pending_line = (int(f[1]), f[2], [sexpr.parse(r) for r in rest if r.strip()])
-            out["lines"].append(pending_line)
+            items = [sexpr.parse(r) for r in rest if r.strip()]
+            if head == "(line":
+                pending_line = (int(f[1]), f[2], items)
+                out["lines"].append(pending_line)
+            out["seq"].append(("client", items))
             continue
         x = sexpr.parse(ch)
         if x[0] == "sim":
@@ -749,6 +752,7 @@ def parse_trace(lines):
                 out["actions"][-1]["state"] = x
             else:
                 out["initial_state"] = x
+                out["seq"].append(("state", x))
         elif x[0] == "action":
             body = x[2:]
             prelude = body and body[0] == ["prelude"]
@@ -770,6 +774,7 @@ def parse_trace(lines):
                 else:
                     a["items"].append(it)
             out["actions"].append(a)
+            out["seq"].append(("action", a))
     return out
 
 
@@ -798,3 +803,340 @@ def replay(ctx, runner, kinds_of):
         o["observed"] = s.line[:3000]
         ctx.violation(o, finding_key=obj.get("finding"))
     return still
+
+
+# ----------------------------------------------------------------------------- protocol-model replay (M-Sys, coq/theories/sys/Proto.v)
+# A `qv_sim --trace` run of the real code is turned into the input of the extracted model
+# (coq/driver/proto_main.ml): the schedule actions, the client calls, and for every worker step the
+# oracle saying what the executed time slice did (read off the trace by diffing the dumps). The
+# model's state after EVERY action is then compared with the simulator's dump.
+
+class Unmodelled(Exception):
+    pass
+
+
+class _Intern:
+    def __init__(self):
+        self.ids = {"(t - ())": 0}
+
+    def __call__(self, text):
+        if text not in self.ids:
+            self.ids[text] = len(self.ids)
+        return self.ids[text]
+
+
+INSPECT = ("GetStatuses", "GetWorkerInfo", "GetProcessTypes", "GetProcessInfo", "GetLocals", "GetExecutionStats")
+NOOPS = ("UpdateProgram", "CompactLocals", "Subscribe", "Unsubscribe")
+RESPONSES = ("StatusesResponse", "WorkerInfoResponse", "ProcessTypesResponse", "InfoResponse", "LocalsResponse", "StatsResponse")
+
+
+def _fields(items):
+    return {x[0]: x[1:] for x in items if isinstance(x, list) and x and isinstance(x[0], str)}
+
+
+def _res(r, intern):
+    if r == "-":
+        return "-"
+    if r[0] == "ok":
+        return ["ok", str(intern(unparse(r[1])))]
+    return ["err", str(intern("E " + unparse(r[1:])))]
+
+
+def _results(rs, intern):
+    return sorted(([t, _res(r, intern)] for t, r in rs), key=lambda e: int(e[0]))
+
+
+def _cmd(c, intern):
+    k = c[0]
+    if k in NOOPS:
+        return ["noop"]
+    if k in INSPECT:
+        return ["I", c[1]]
+    if k == "StartProcess":
+        return ["St", c[1], "1" if c[2] == "-" else "0"]
+    if k == "SpawnProcess":
+        return ["S", c[1]]
+    if k == "ResumeProcess":
+        return ["R", c[1]]
+    if k == "QueryAndAwait":
+        return ["Q", c[1], list(c[2])]
+    if k == "UpdateAwaitResults":
+        return ["U", c[1], _results(c[2], intern)]
+    if k == "DeliverMessage":
+        return ["D", c[1], unparse(c[2])]
+    if k == "NotifySpawn":
+        return ["N", c[1], c[2]]
+    if k == "GetResult":
+        return ["G", c[1], c[2]]
+    raise Unmodelled("command " + k)
+
+
+def _evt(e, intern):
+    k = e[0]
+    if k == "SpawnAction":
+        return ["SA", e[1]]
+    if k == "DeliverAction":
+        return ["DA", e[1], unparse(e[2])]
+    if k == "AwaitAction":
+        return ["AA", e[1], list(e[2])]
+    if k == "ProcessResults":
+        return ["PR", e[1], _results(e[2], intern)]
+    if k == "ResultResponse":
+        return ["RR", e[1], _res(e[2], intern)]
+    if k in RESPONSES:
+        return ["IR", e[1]]
+    raise Unmodelled("event " + k)
+
+
+def _dump_state(state, intern):
+    """Normalise a `(state ...)` dump of qv_sim into the shape printed by proto_main.ml."""
+    nodes, env, clock = [], None, None
+    for it in state[1:]:
+        if it[0] == "worker":
+            if it[2] != "alive":
+                raise Unmodelled("dead worker")
+            f = _fields(it[3:])
+            procs = []
+            for pr in it[3:]:
+                if pr[0] != "proc":
+                    continue
+                pf = _fields(pr[3:])
+                aw = sorted(([t, "-" if v == "-" else ["ok", str(intern(unparse(v)))]] for t, v in pf["awaiting"]), key=lambda e: int(e[0]))
+                procs.append([pr[1], [unparse(m) for m in pf["mailbox"]], _res(pf["result"][0], intern), aw])
+            if f.get("effecting"):
+                raise Unmodelled("effecting")
+            ch = _fields(f["chan"])
+            nodes.append({
+                "queue": list(f["queue"]), "spawning": sorted(f["spawning"], key=int), "selecting": sorted(f["selecting"], key=int),
+                "procs": sorted(procs, key=lambda p: int(p[0])), "awaited": sorted(f["awaited"], key=int),
+                "awaiters": sorted(([t, list(a)] for t, a in f["awaiters"]), key=lambda e: int(e[0])),
+                "cmds": [_cmd(c, intern) for c in ch["cmds"]], "evts": [_evt(e, intern) for e in ch["evts"]]})
+        elif it[0] == "env":
+            if it[1] != "alive":
+                raise Unmodelled("dead environment")
+            f = _fields(it[2:])
+            pend = []
+            for pa in f["pending-awaits"]:
+                pf = _fields(pa[1:])
+                pend.append([pa[0], sorted(pf["expected"], key=int), sorted(pf["responded"], key=int), sorted(pf["answered"], key=int)])
+            env = {"router": sorted(([p, w] for p, w in f["router"]), key=lambda e: int(e[0])),
+                   "pending": sorted(pend, key=lambda e: int(e[0])), "next": f["next-pid"][0]}
+        elif it[0] == "clock":
+            clock = it[1]
+    return {"nodes": nodes, "env": env, "clock": clock}
+
+
+def _model_state(st, stamps):
+    """Normalise one `(st ...)` printed by the model driver; message stamps -> value texts."""
+    def m(x):
+        return stamps.get((x[1], x[2], x[3]), "?" + unparse(x))
+
+    def c(x):
+        if x[0] in ("D", "DA"):
+            return [x[0], x[1], m(x[2])]
+        if x[0] in ("U", "PR"):
+            return [x[0], x[1], [[t, r] for t, r in x[2]]]
+        if x[0] in ("Q", "AA"):
+            return [x[0], x[1], list(x[2])]
+        return list(x)
+    nodes, env, clock = [], None, None
+    for it in st[1:]:
+        if it[0] == "node":
+            f = _fields(it[1:])
+            nodes.append({
+                "queue": list(f["queue"]), "spawning": list(f["spawning"]), "selecting": list(f["selecting"]),
+                "procs": [[p[0], [m(x) for x in _fields(p[1:])["mail"]], _fields(p[1:])["res"][0],
+                           [[t, r] for t, r in _fields(p[1:])["aw"]]] for p in f["procs"]],
+                "awaited": list(f["awaited"]), "awaiters": [[t, list(a)] for t, a in f["awaiters"]],
+                "cmds": [c(x) for x in f["cmds"]], "evts": [c(x) for x in f["evts"]]})
+        elif it[0] == "env":
+            f = _fields(it[1:])
+            env = {"router": [[p, w] for p, w in f["router"]],
+                   "pending": [[pa[0]] + [list(_fields(pa[1:])[k]) for k in ("exp", "resp", "ans")] for pa in f["pending"]],
+                   "next": f["next"][0]}
+        elif it[0] == "clock":
+            clock = it[1]
+    return {"nodes": nodes, "env": env, "clock": clock}
+
+
+def _first_diff(a, b, path=""):
+    if type(a) != type(b):
+        return "%s: %r != %r" % (path, a, b)
+    if isinstance(a, dict):
+        for k in a:
+            d = _first_diff(a[k], b.get(k), path + "." + k)
+            if d:
+                return d
+        return None
+    if isinstance(a, list):
+        if len(a) != len(b):
+            return "%s: impl %s != model %s" % (path, unparse(a) if a else "()", unparse(b) if b else "()")
+        for i, (x, y) in enumerate(zip(a, b)):
+            d = _first_diff(x, y, "%s[%d]" % (path, i))
+            if d:
+                return d
+        return None
+    return None if a == b else "%s: impl %r != model %r" % (path, a, b)
+
+
+def _client_steps(items):
+    steps = []
+    for it in items:
+        if it[0] != "send-cmd":
+            continue
+        w, c = it[1], it[2]
+        k = c[0]
+        if k == "StartProcess":
+            steps.append("(x start %s)" % ("1" if c[2] == "-" else "0"))
+        elif k in NOOPS:
+            steps.append("(x noop %s)" % w)
+        elif k in INSPECT:
+            steps.append("(x inspect %s %s)" % (w, c[1]))
+        elif k == "ResumeProcess":
+            steps.append("(x resume %s)" % c[1])
+        elif k == "GetResult":
+            steps.append("(x getresult %s %s)" % (c[2], c[1]))
+        else:
+            raise Unmodelled("client command " + k)
+    return steps
+
+
+def _sel_text(sel):
+    if sel == "-":
+        return "-"
+    f = _fields(sel[3:])
+    targets = [s[1] for s in f["sources"] if isinstance(s, list) and s[0] == "p"]
+    timeouts = [str(min(max(int(s[1]), 0), 100000)) for s in f["sources"] if isinstance(s, list) and s[0] == "i"]
+    start = f["start"][0]
+    return "(sel (targets %s) (cursors %s) (timeouts %s) (start %s))" % (
+        " ".join(targets), " ".join(f["cursors"]), " ".join(timeouts), start if start == "-" else str(min(int(start), 10 ** 6)))
+
+
+def _find_proc(dump, wi, pid):
+    if dump is None or wi >= len(dump["nodes"]):
+        return None
+    for p in dump["nodes"][wi]["raw_procs"]:
+        if p[1] == pid:
+            return p
+    return None
+
+
+def trace_to_replay(trace):
+    """-> (driver input line, expected: list of normalised dumps or None per step, stamps, n_actions).
+    Raises Unmodelled for traces the model does not cover (effects, dead components)."""
+    intern = _Intern()
+    nw = int(_fields(trace["sim"][1:])["workers"][0])
+    steps, expected = [], []
+    stamps = {}
+    nsent = [0] * nw
+    prev_raw = None           # previous raw `(state ...)`
+    for kind, x in trace["seq"]:
+        if kind == "client":
+            for s in _client_steps(x):
+                steps.append(s)
+                expected.append(None)
+            continue
+        if kind == "state":
+            prev_raw = x
+            continue
+        a = x
+        if a["outcome"] and a["outcome"][0] in ("panic", "err", "dead", "no-such-worker"):
+            break
+        act = a["action"]
+        for it in a["items"]:
+            if it[0] in ("execute", "close-resource", "completion"):
+                raise Unmodelled("effects")
+        if act[0] == "t":
+            steps.append("(t %s)" % act[1])
+        elif act[0] == "e":
+            steps.append("(e %s)" % " ".join(act[1:]))
+        else:
+            wi = int(act[1])
+            k = act[2] if len(act) > 2 else "-"
+            workers = [it for it in prev_raw[1:] if it[0] == "worker"] if prev_raw else []
+            after_workers = [it for it in a["state"][1:] if it[0] == "worker"]
+
+            def procs_of(w):
+                return {p[1]: _fields(p[3:]) for p in w[3:] if p[0] == "proc"}
+            before = procs_of(workers[wi]) if workers else {}
+            after = procs_of(after_workers[wi])
+            af = _fields(after_workers[wi][3:])
+            ex = a["exec"]
+            pid = None if (not ex or ex[0] == "idle") else _fields(ex)["pid"][0]
+            did = "(did (taken) - - 0 - 0)"
+            sent_evts = [it[2] for it in a["items"] if it[0] == "send-evt"]
+            if pid is not None:
+                pre = [unparse(m) for m in before[pid]["mailbox"]] if pid in before else []
+                for it in a["items"]:
+                    if it[0] == "recv-cmd" and it[2][0] == "SpawnProcess" and it[2][1] == pid:
+                        pre = []
+                    if it[0] == "recv-cmd" and it[2][0] == "StartProcess" and it[2][1] == pid:
+                        pre = []
+                    if it[0] == "recv-cmd" and it[2][0] == "DeliverMessage" and it[2][1] == pid:
+                        pre.append(unparse(it[2][2]))
+                post = [unparse(m) for m in after[pid]["mailbox"]]
+                removed, j = [], 0
+                for i, t in enumerate(pre):
+                    if j < len(post) and post[j] == t:
+                        j += 1
+                    else:
+                        removed.append(i)
+                if j != len(post):
+                    raise Unmodelled("mailbox of %s is not a subsequence of its previous content" % pid)
+                taken = [str(r - n) for n, r in enumerate(removed)]
+                action = "-"
+                for e in sent_evts:
+                    if e[0] == "SpawnAction":
+                        action = "spawn"
+                    elif e[0] == "DeliverAction":
+                        action = "(deliver %s)" % e[1]
+                        stamps[(pid, str(wi), str(nsent[wi]))] = unparse(e[2])
+                        nsent[wi] += 1
+                    elif e[0] == "AwaitAction":
+                        action = "(await %s)" % " ".join(e[2])
+                    elif e[0] == "EffectRequest":
+                        raise Unmodelled("effects")
+                res = after[pid]["result"][0]
+                fin = "-"
+                if res != "-":
+                    r = _res(res, intern)
+                    fin = "(%s %s)" % (r[0], r[1])
+                heapy = "1" if (res != "-" and "(b " in unparse(res)) else "0"
+                park = "1" if (pid in af["selecting"] and not action.startswith("(await") and fin == "-") else "0"
+                did = "(did (taken %s) %s %s %s %s %s)" % (" ".join(taken), _sel_text(after[pid]["select"][0]), action, park, fin, heapy)
+            allp = sorted(set(list(before) + list(after)), key=int)
+            q_after = list(af["queue"])
+            completed = []
+            for e in sent_evts:
+                if e[0] == "ProcessResults":
+                    completed += [t for t, r in e[2] if r != "-"]
+            hint1 = ([pid] if pid is not None else []) + q_after + allp
+            steps.append("(w %d %s %s %s (expired %s) (awaiters %s) (completed %s))" % (
+                wi, k, pid if pid is not None else "-", did, " ".join(hint1), " ".join(q_after + allp), " ".join(completed + allp)))
+        prev_raw = a["state"]
+        expected.append(_dump_state(a["state"], intern))
+    n_actions = sum(1 for e in expected if e is not None)
+    return "(replay (workers %d) (steps %s))" % (nw, " ".join(steps)), expected, stamps, n_actions
+
+
+def compare_replay(model_line, expected, stamps):
+    """-> (number of actions whose state agreed, first divergence text or None)."""
+    try:
+        out = sexpr.parse("(" + model_line + ")")
+    except Exception:
+        return 0, "unparsable model output: " + model_line[:200]
+    if not out or not isinstance(out[0], list) or out[0][0] != "states":
+        return 0, "model driver: " + model_line[:200]
+    states = out[0][1:]
+    fault = out[1] if len(out) > 1 else None
+    agreed = 0
+    for i, exp in enumerate(expected):
+        if i >= len(states):
+            return agreed, "model fault at step %d: %s" % (i, unparse(fault) if fault else "missing state")
+        if exp is None:
+            continue
+        d = _first_diff(exp, _model_state(states[i], stamps))
+        if d:
+            return agreed, "step %d: %s" % (i, d)
+        agreed += 1
+    return agreed, None
